@@ -32,7 +32,7 @@ def sim_cases():
         # the shutdown path must report losses too (close, then a running
         # worker dies with nothing queued)
         g.close, g.dier0, g.lastgasp, g.lastgasp, g.slow,
-        g.straggle.map(lambda o: o[:3] + [False]),
+        g.straggle.map(lambda o: o[:3] + [False]), g.parkrecycle,
     ]
     return g.history(cfg, ops, max_ops=70, min_ops=15)
 
